@@ -174,6 +174,9 @@ func genMergeCase(r *rand.Rand, idx int, tier string, tmp string) *mergeCase {
 	m := &mergeCase{}
 	fail := func(err error) *mergeCase { m.Err = err; return m }
 	sch := gen.GenSchema(r)
+	if idx%16 == 9 { // field names of >= 128 bytes
+		sch.LongNames()
+	}
 	add := func(s *gen.Seg, err error, d *roaring.Bitmap) bool {
 		if err != nil {
 			m.Err = err
